@@ -27,6 +27,9 @@ func main() {
 		fmt.Printf("loaded in %.1fs\n", ld.LoadSec)
 		j := &Job{ID: os.Args[3], Pkg: os.Args[2], Entry: os.Args[3], Workers: 8, IntMode: os.Getenv("SYMGO_INT") != "", PanicOK: os.Getenv("SYMGO_PANICOK") != ""}
 		j.OneShot = os.Getenv("SYMGO_ONESHOT") != ""
+		if os.Getenv("SYMGO_GOINLINE") != "" {
+			j.GoInline = func(string) bool { return true }
+		}
 		if os.Getenv("SYMGO_ALLOC") != "" {
 			j.AllocLimit = 64 << 20
 		}
